@@ -62,11 +62,18 @@ def main():
                         "met": {"ustar": 0.1 * speed + 0.05, "mol": mol, "wind_speed": speed, "wind_dir": d},
                         "solver": {"closure": closure, "footprint": True, "precision": "double"},
                     }
+                    # the measurement-height footprint as the only output, as the last of two requested levels, and as one slice
+                    # of the full column: the same orientation
+                    lvmode = (k + len(obs)) % 3
+                    if lvmode == 1:
+                        raw["domain"]["output_levels"] = [6, 12]
+                    elif lvmode == 2 and (k + len(obs)) % 2 == 0:
+                        raw["domain"]["full_output"] = True
                     # ustar grows with the speed: the roughness length, and with it the resolution of the footprint, stays put
                     cfg = parse_config_dict(raw)
                     tw, tq = cfg.towers
                     u, v = compute_wind_fields(speed, d)
-                    sc = {"kind": "orientation", "wind_dir": d, "closure": closure, "mol": mol, "grid": [nx, ny, xmax, ymax], "speed": speed}
+                    sc = {"kind": "orientation", "wind_dir": d, "closure": closure, "mol": mol, "grid": [nx, ny, xmax, ymax], "speed": speed, "levels": ["top", "[6, 12]", "full"][lvmode if "output_levels" in raw["domain"] or "full_output" in raw["domain"] else 0]}
                     if abs(math.hypot(u, v) - speed) > 1e-12 * speed:
                         chk.violation("wind decomposition does not preserve the speed: |(u,v)| = %r for speed %r" % (math.hypot(u, v), speed), sc, klass={"check": "speed"})
                     if (k + len(obs)) % 4 == 0:
@@ -80,6 +87,10 @@ def main():
                     z, prof = vertical_profiles(n=12, meas_height=3.0, wind=(u, v), ustar=0.1 * speed + 0.05, mol=mol, closure=closure)
                     X, Y, _ = res["grid"]
                     f = np.asarray(res["flx"], dtype=float)
+                    if f.ndim == 3:
+                        pick = 12 if f.shape[0] == 13 else f.shape[0] - 1          # the slice of the measurement height
+                        f = f[pick]
+                        X, Y = (np.asarray(X)[pick], np.asarray(Y)[pick]) if np.ndim(X) == 3 else (X, Y)
                     # centre of mass over a disc centred on the tower: the grid window itself is not symmetric about the
                     # tower (one more row/column on one side, oblong domains), which biases the centroid of a footprint
                     # with long tails; a disc is symmetric about every wind axis ("resolved domain centred on the tower")
